@@ -218,7 +218,15 @@ pub fn plan_admin(w: &World, _k: &Knobs, actor: &mut Actor, l: &Ledger) -> Vec<(
 pub fn arbitrary_constants(rng: &mut Rng, spacing: u16) -> (u16, decode::AfConstants) {
     let salt = 200 + rng.below(60) as u16;
     let (idx, mut c) = crate::gen2::pick_adaptive_constants(rng, spacing.max(1), salt);
-    match rng.below(12) {
+    match rng.below(14) {
+        12 | 13 => {
+            // accumulator x group size exactly at the 32-bit limit: 2^32 (one too many) or 2^32 - 1 (the largest legal product)
+            let divisors: Vec<u16> = (0..16).map(|k| 1u16 << k).filter(|d| *d <= spacing.max(1) && spacing.max(1) % d == 0).collect();
+            let g = *rng.pick(&divisors);
+            c.tick_group_size = g;
+            let exact = ((1u64 << 32) / g as u64).min(u32::MAX as u64) as u32;
+            c.max_volatility_accumulator = if rng.chance(1, 2) { exact } else { (((1u64 << 32) - 1) / g as u64) as u32 };
+        }
         0 => c.filter_period = 0,
         1 => c.decay_period = c.filter_period,
         2 => c.decay_period = 0,
@@ -366,6 +374,9 @@ pub fn plan_creator(w: &World, _k: &Knobs, actor: &mut Actor, l: &Ledger, now: i
         let mut d = fab.data[..82].to_vec();
         d.truncate(82);
         (ix::tok(), d)
+    } else if fab.exts.is_empty() && rng.chance(1, 2) {
+        // a Token-2022 mint without any extension is a bare 82-byte account (no account-type byte, no TLV area)
+        (ix::tok22(), fab.data[..82].to_vec())
     } else {
         (ix::tok22(), fab.data.clone())
     };
